@@ -18,35 +18,133 @@
 From Coq Require Import List ZArith Bool Lia.
 From LMBase Require Import Res.
 From LMPyIdx Require Import GenSlots.
-From LMFootprint Require Import FpModel FpProofs FpNeon FpHistory FpHistoryProofs FpCap FpCapProofs FpInit FpPy FpPyProofs.
+From LMFootprint Require Import FpModel FpProofs FpNeon FpHistory FpHistoryProofs FpCap FpCapProofs FpInit FpPy FpPyProofs FpUsize FpUsizeProofs.
 Import ListNotations.
 Open Scope Z_scope.
 
 (* ===================== A. allocations ===================== *)
 
-(* Along ANY history of safe API calls with the capacity of the sequence matrix made explicit — clones,
-   `StripedSequence::new(DenseMatrix::new(n))`, whatever capacity std chooses at each reallocation — every
-   access of every kernel entered is inside the extents of its event, where the extent of the sequence matrix
-   of a scoring call is its ALLOCATION (c_scap rows), and the allocation always holds the rows. *)
+(* Histories with the allocations of the matrices (FpCap.cstep: the state of FpHistory plus the capacity of the
+   sequence matrix and of the two score matrices; ops: those of FpHistory with the capacity std chooses at a
+   reallocation as an input, clone of the sequence / of the scores, `StripedSequence::new(DenseMatrix::new(n), L)`).
+
+   INVARIANT over the whole op list (cinv): the components are usize values, every matrix lies inside its
+   allocation (rows() <= capacity() for the sequence matrix and both score matrices) and the sequence matrix holds
+   the rows of the sequence plus the wrap rows (ceil(len / 32) + wrap <= rows()).  It holds in EVERY state the history
+   goes through, and for every kernel entered at every step: every access is inside the OWNED rows of the buffer it
+   addresses and aligned (the statement of C06_histories_partial), and the owned rows are inside the allocation of
+   that buffer AS IT IS AT THAT STEP (ce_alloc).  Unlike C06_histories_partial (which holds from any non-negative
+   state: it is the conjunction of the per-kernel theorems and carries no invariant), this one is inductive: the
+   transitions of the history model — configure_wrap, the resizes of the score matrices, clones — have to preserve
+   rows <= capacity and the shape of the sequence.  PARTIAL as everything here: a statement about the model; its
+   transitions are compared with the implementation per op by the driver (rows, wrap, capacities before/after). *)
+Theorem C06_histories_invariant_partial : forall K pstF pstU ops s,
+  layout_ok 4 K pstF -> layout_ok 1 K pstU ->
+  cinv s -> Forall cop_wf ops ->
+  Forall (fun ce => Forall (InBounds (ev_ext (ce_ev ce))) (ev_accs (ce_ev ce)) /\
+                    Forall (Aligned (ev_al (ce_ev ce))) (ev_accs (ce_ev ce)) /\
+                    (forall b, ev_ext (ce_ev ce) b <= ce_alloc ce b))
+         (ctrace K pstF pstU s ops) /\
+  Forall cinv (cstates K pstF pstU s ops).
+Proof.
+  intros K pstF pstU ops s HF HU Hs Ho.
+  destruct (ctrace_safe K pstF pstU HF HU ops s Hs Ho) as [H Hc]. split; [|exact Hc].
+  eapply Forall_impl; [|exact H]. intros ce [He Hle]. split; [|split].
+  - exact (safe_in_bounds _ _ _ He).
+  - exact (safe_aligned _ _ _ He).
+  - exact Hle.
+Qed.
+
+(* ... in particular from the fresh state (empty buffers), for every list of well-formed ops: the reachable states *)
+Theorem C06_histories_from_fresh_partial : forall K pstF pstU ops,
+  layout_ok 4 K pstF -> layout_ok 1 K pstU -> Forall cop_wf ops ->
+  Forall cinv (cstates K pstF pstU c0 ops) /\
+  Forall (fun ce => Forall (InBounds (ev_ext (ce_ev ce))) (ev_accs (ce_ev ce))) (ctrace K pstF pstU c0 ops).
+Proof.
+  intros K pstF pstU ops HF HU Ho.
+  assert (H0 : cinv c0) by (unfold cinv, hwf, seq_shape, c0, h0; simpl; lia).
+  destruct (ctrace_safe K pstF pstU HF HU ops c0 H0 Ho) as [H Hc]. split; [exact Hc|].
+  eapply Forall_impl; [|exact H]. intros ce [He _]. exact (safe_in_bounds _ _ _ He).
+Qed.
+
+(* Corollary (WEAKER than the owned-rows statement above, kept because it is what a sanitizer can observe): every
+   access of every step is inside the allocation of its buffer as it is at that step *)
 Theorem C06_histories_allocation_partial : forall K pstF pstU ops s,
   layout_ok 4 K pstF -> layout_ok 1 K pstU ->
   cinv s -> Forall cop_wf ops ->
-  Forall (fun e => Forall (InBounds (ev_ext e)) (ev_accs e) /\ Forall (Aligned (ev_al e)) (ev_accs e))
-         (ctrace K pstF pstU s ops) /\
-  hSR (c_h (cfinal K pstF pstU s ops)) <= c_scap (cfinal K pstF pstU s ops).
+  Forall (fun ce => Forall (InBounds (ce_alloc ce)) (ev_accs (ce_ev ce))) (ctrace K pstF pstU s ops).
 Proof.
   intros K pstF pstU ops s HF HU Hs Ho.
-  destruct (ctrace_safe K pstF pstU HF HU ops s Hs Ho) as [H [_ Hc]]. split; [|exact Hc].
-  eapply Forall_impl; [|exact H]. intros e He. split.
-  - exact (safe_in_bounds _ _ _ He).
-  - exact (safe_aligned _ _ _ He).
+  destruct (ctrace_safe K pstF pstU HF HU ops s Hs Ho) as [H _].
+  eapply Forall_impl; [|exact H]. intros ce [He Hle].
+  pose proof (safe_in_bounds _ _ _ He) as Hb. rewrite Forall_forall in *. intros a Ha.
+  eapply in_bounds_mono; [apply Hle | apply Hb; exact Ha].
 Qed.
 
-(* a clone of the sequence is an exact allocation (capacity = rows), whatever the history before it ... *)
+(* totality companions of the `... = Ok (Entered accs)` premises: exactly when a SIMD scoring wrapper enters ... *)
+Theorem fp_score_guard_enters_iff : forall ranged p body,
+  score_guard ranged p body = Ok (Entered (body tt)) <->
+  (pM p <> 0 /\ pM p - 1 <= pwrap p /\ pM p <= pL p /\ pa p < pb p /\
+   (ranged = true -> pb p + pM p - 1 <= pSR p)).
+Proof.
+  intros ranged p body. split.
+  - intros H. apply score_guard_entered in H. tauto.
+  - intros (H0 & Hw & HL & Hab & Hr). destruct ranged.
+    + apply score_guard_total; auto.
+    + unfold score_guard.
+      assert (E0 : (pM p =? 0) = false) by (apply Z.eqb_neq; exact H0). rewrite E0.
+      assert (E1 : (pwrap p <? pM p - 1) = false) by (apply Z.ltb_ge; lia). rewrite E1.
+      assert (E2 : ((pL p <? pM p) || (pb p <=? pa p)) = false).
+      { apply orb_false_iff. split; [apply Z.ltb_ge | apply Z.leb_gt]; lia. }
+      rewrite E2. reflexivity.
+Qed.
+
+(* ... and along a history: once the sequence was configured for the motif (wrap >= M - 1) and is at least as long,
+   the full-range call (`score_into`: rows 0 .. rows() - wrap()) never panics: it enters the kernel *)
+Theorem fp_configured_full_range_scoring_enters : forall K pstF pstU s,
+  cinv s -> 0 < hM (c_h s) -> hM (c_h s) <= hL (c_h s) -> hM (c_h s) - 1 <= hwrap (c_h s) ->
+  let h := c_h s in
+  wrap_score_u8_avx2 true (score_params K h pstU 0 (hSR h - hwrap h)) =
+    Ok (Entered (fp_score_u8_avx2_shuffle (score_params K h pstU 0 (hSR h - hwrap h)))) /\
+  wrap_score_sse2 true 32 (score_params K h pstF 0 (hSR h - hwrap h)) =
+    Ok (Entered (fp_score_sse2 32 (score_params K h pstF 0 (hSR h - hwrap h)))).
+Proof.
+  intros K pstF pstU s (Hw & _ & _ & _ & Hsh) HM HL Hwr.
+  exact (configured_full_range_enters K pstF pstU (c_h s) Hw Hsh HM HL Hwr).
+Qed.
+
+(* ... the other wrappers: max / argmax enter exactly on a non-empty matrix within the index limits, the encoders
+   exactly when the destination has the length of the text *)
+Theorem fp_max_wrappers_enter_iff : forall rows mi st C,
+  (wrap_argmax_f32_avx2 rows mi st = Ok (Entered (fp_argmax_f32_avx2 rows st)) <-> (mi <= 4294967295 /\ rows <> 0)) /\
+  (wrap_max_f32_avx2 rows st = Ok (Entered (fp_max_f32_avx2 rows st)) <-> rows <> 0) /\
+  (wrap_argmax_u8_avx2 rows st = Ok (Entered (fp_argmax_u8_avx2 rows st)) <-> (rows <= 65536 /\ rows <> 0)) /\
+  (wrap_max_u8_avx2 rows st = Ok (Entered (fp_max_u8_avx2 rows st)) <-> rows <> 0) /\
+  (wrap_argmax_sse2 C rows mi st = Ok (Entered (fp_argmax_sse2 C rows st)) <-> (mi <= 4294967295 /\ rows <> 0)).
+Proof.
+  intros rows mi st C.
+  unfold wrap_argmax_f32_avx2, wrap_max_f32_avx2, wrap_argmax_u8_avx2, wrap_max_u8_avx2, wrap_argmax_sse2.
+  destruct (4294967295 <? mi) eqn:E1; [apply Z.ltb_lt in E1 | apply Z.ltb_ge in E1];
+  (destruct (rows =? 0) eqn:E2; [apply Z.eqb_eq in E2 | apply Z.eqb_neq in E2]);
+  (destruct (65536 <? rows) eqn:E3; [apply Z.ltb_lt in E3 | apply Z.ltb_ge in E3]);
+  (split; [|split; [|split; [|split]]]); (split; [intros H; try discriminate; try lia; try (split; lia) | intros H; try reflexivity; try lia; try (destruct H; lia)]).
+Qed.
+
+Theorem fp_encode_wrapper_enters_iff : forall kern L Ld,
+  wrap_encode kern L Ld = Ok (Entered (kern L)) <-> L = Ld.
+Proof.
+  intros kern L Ld. unfold wrap_encode. destruct (L =? Ld) eqn:E.
+  - apply Z.eqb_eq in E. tauto.
+  - apply Z.eqb_neq in E. split; [discriminate | tauto].
+Qed.
+
+(* a clone is an exact allocation (capacity = rows), whatever the history before it ... *)
 Theorem fp_clone_allocation_exact : forall K pstF pstU s,
   c_scap (fst (cstep K pstF pstU s CCloneSeq)) = hSR (c_h (fst (cstep K pstF pstU s CCloneSeq))) /\
-  c_h (fst (cstep K pstF pstU s CCloneSeq)) = c_h s.
-Proof. intros. split; reflexivity. Qed.
+  c_h (fst (cstep K pstF pstU s CCloneSeq)) = c_h s /\
+  c_fcap (fst (cstep K pstF pstU s CCloneScores)) = hFR (c_h s) /\
+  c_ucap (fst (cstep K pstF pstU s CCloneScores)) = hUR (c_h s).
+Proof. intros. repeat split; reflexivity. Qed.
 
 (* ... scoring does not change it, and a configure_wrap that fits into the capacity keeps the allocation *)
 Theorem fp_score_keeps_allocation : forall K pstF pstU s a lo hi nc,
@@ -109,10 +207,12 @@ Example fp_exact_allocation_witness :
   check_C06 (alloc_score 1 p (c_scap s) 5 4) balign_mat_src (fp_score_u8_avx2_pipelined p) = true /\
   check_C06 (alloc_score 1 p (c_scap s') 5 4) balign_mat_src (fp_score_u8_avx2_pipelined p) = false /\
   check_C06 (alloc_score 1 p (c_scap s') 5 4) balign_mat_src (fp_score_u8_avx2_shuffle p) = true /\
-  map (fun e => check_C06 (ev_ext e) (ev_al e) (ev_accs e))
-      (ctrace 5 8 32 c0 (ops ++ [CCloneSeq; CBase (HScoreU8 AAvx2 0 4) 0])) = [true; true; true].
+  map (fun ce => check_C06 (ev_ext (ce_ev ce)) (ev_al (ce_ev ce)) (ev_accs (ce_ev ce)) &&
+                 check_C06 (ce_alloc ce) (ev_al (ce_ev ce)) (ev_accs (ce_ev ce)))
+      (ctrace 5 8 32 c0 (ops ++ [CCloneSeq; CBase (HScoreU8 AAvx2 0 4) 0])) = [true; true; true] /\
+  c_ucap (cfinal 5 8 32 c0 (ops ++ [CCloneSeq; CBase (HScoreU8 AAvx2 0 4) 7])) = 7.
 Proof.
-  cbv zeta. split; [unfold cinv, hwf, c0, h0; simpl; lia|].
+  cbv zeta. split; [unfold cinv, hwf, seq_shape, c0, h0; simpl; lia|].
   split; [repeat constructor; simpl; lia|].
   repeat split; vm_compute; reflexivity.
 Qed.
@@ -265,5 +365,75 @@ Proof.
   - nia.
 Qed.
 
-Check C06_histories_allocation_partial.
+(* ===================== D. the guards in usize arithmetic ===================== *)
+
+(* The code computes `rows.end + pssm.rows() - 1 > seq.matrix().rows()` in usize (FpUsize.score_guard_usize:
+   panic of the overflow check in the dev profile, wrap-around in release, then `scores.resize` and the checked index
+   `seq.matrix()[i]` of the kernel).  For every call (usize_ok: usize arguments, wrap <= rows, the sequence matrix is
+   one allocation) it enters the kernel only when the Z guard of FpModel.v does, with the same footprint ... *)
+Theorem fp_usize_guard_enters_only_when_Z_guard_does : forall release rb p body accs,
+  usize_ok rb p ->
+  score_guard_usize release rb p body = Ok (Entered accs) ->
+  score_guard true p body = Ok (Entered accs).
+Proof. exact score_guard_usize_entered. Qed.
+
+(* ... panics whenever the Z guard panics (possibly elsewhere: overflow check, capacity overflow, checked index) ... *)
+Theorem fp_usize_guard_panics_when_Z_guard_panics : forall release rb p body n,
+  usize_ok rb p -> score_guard true p body = Panic n ->
+  exists n', score_guard_usize release rb p body = Panic n'.
+Proof. exact score_guard_usize_panics. Qed.
+
+(* ... returns early in exactly the same cases, and where the Z guard enters it enters too unless the score rows do
+   not fit into one allocation (`capacity overflow` panic of resize) *)
+Theorem fp_usize_guard_skips_iff : forall release rb p body,
+  score_guard_usize release rb p body = Ok Skipped <-> score_guard true p body = Ok Skipped.
+Proof. exact score_guard_usize_skipped. Qed.
+
+Theorem fp_usize_guard_enters_unless_capacity_overflow : forall release rb p body accs,
+  usize_ok rb p -> score_guard true p body = Ok (Entered accs) ->
+  score_guard_usize release rb p body = Ok (Entered accs) \/
+  (ISIZE_MAX < (pb p - pa p) * rb /\ score_guard_usize release rb p body = Panic 12).
+Proof. exact score_guard_usize_enters. Qed.
+
+(* hence the kernels are safe under the guards AS COMPUTED BY THE CODE, in both profiles (u8 and f32 AVX2, SSE2) *)
+Theorem fp_score_kernels_safe_under_usize_guards : forall release rb p accs,
+  usize_ok rb p -> sp_nonneg p -> layout_ok 1 32 (psst p) ->
+  (layout_ok 1 (pK p) (ppst p) -> layout_ok 1 32 (pdst p) ->
+   score_guard_usize release rb p (fun _ => fp_score_u8_avx2_shuffle p) = Ok (Entered accs) ->
+   Forall (Safe (ext_score 1 p) balign_mat_src) accs) /\
+  (layout_ok 4 (pK p) (ppst p) -> layout_ok 4 32 (pdst p) ->
+   score_guard_usize release rb p (fun _ => fp_score_f32_avx2_permute p) = Ok (Entered accs) ->
+   Forall (Safe (ext_score 4 p) balign_mat_src) accs) /\
+  (layout_ok 4 (pK p) (ppst p) -> layout_ok 4 32 (pdst p) ->
+   score_guard_usize release rb p (fun _ => fp_score_f32_avx2_gather p) = Ok (Entered accs) ->
+   Forall (Safe (ext_score 4 p) balign_mat_src) accs) /\
+  (layout_ok 4 (pK p) (ppst p) -> layout_ok 4 32 (pdst p) ->
+   score_guard_usize release rb p (fun _ => fp_score_sse2 32 p) = Ok (Entered accs) ->
+   Forall (Safe (ext_score 4 p) balign_mat_src) accs).
+Proof.
+  intros release rb p accs Hok Hn Hs. repeat split; intros Hp Hd H;
+    apply (score_guard_usize_entered release rb p _ accs Hok) in H.
+  - exact (wrap_score_u8_safe p accs Hn Hs Hp Hd H).
+  - apply score_guard_entered in H. destruct H as [-> [_ [_ [_ [_ Hr]]]]].
+    apply score_permute_body_safe; auto.
+  - exact (wrap_score_gather_safe p accs Hn Hs Hp Hd H).
+  - exact (wrap_score_sse2_safe 32 p accs Hn Hs Hp Hd H).
+Qed.
+
+(* the corner the Z guard hides: rows = (usize::MAX - 1)..usize::MAX, M = 2 on a sequence of 8 rows — overflow-check
+   panic in the dev profile; in release the sum wraps to 0, the guard PASSES, resize(1), and the checked index of the
+   kernel panics before any raw access (corpus u1-u5) *)
+Example fp_usize_wrap_witness :
+  let p := mkSP 5 100 8 4 2 18446744073709551614 18446744073709551615 32 32 32 in
+  usize_ok 32 p /\
+  score_guard true p (fun _ => fp_score_u8_avx2_shuffle p) = Panic 4 /\
+  score_guard_usize false 32 p (fun _ => fp_score_u8_avx2_shuffle p) = Panic 11 /\
+  score_guard_usize true 32 p (fun _ => fp_score_u8_avx2_shuffle p) = Panic 13 /\
+  (pb p + pM p - 1) mod USIZE = 0.
+Proof.
+  cbv zeta. split; [unfold usize_ok, USIZE, ISIZE_MAX; simpl; lia|].
+  repeat split; vm_compute; reflexivity.
+Qed.
+
+Check C06_histories_invariant_partial.
 Check fp_pipelined_load_inside_allocation_iff_spare_row.
